@@ -85,6 +85,50 @@ BODIES = [
 ]
 
 
+def resolution_grid():
+    """Which declaration does a use of `a` refer to?  Declarations of `a` are present or absent at every level (module global, the
+    function, an enclosing block, a sibling block that has ended, the statement whose initialiser holds the use, a later statement of the
+    same block); the use is written directly, inside a lambda, inside a lambda in a lambda, or inside a nested function.  The expected
+    answer is computed here from the rule of the property (innermost enclosing declaration that precedes the use; else the module global;
+    a variable is not in scope in its own initialiser: the language rejects that use)."""
+    out = []
+    uses = {"direct": "a", "lambda": "(|| a)()", "lambda2": "(|| (|| a)())()", "fn": "g()"}
+    for bits in range(64):
+        G, F, B, S, I, L = [(bits >> k) & 1 for k in range(6)]
+        for uk, use in uses.items():
+            lines = []
+            if G:
+                lines.append('var a = "G";')
+            lines.append("fn f() {")
+            if F:
+                lines.append('    var a = "F";')
+            lines.append("    {")
+            if S:
+                lines.append('        { var a = "S"; }')
+            if B:
+                lines.append('        var a = "B";')
+            lines += ["        {", "            {"]
+            if uk == "fn":
+                lines.append("                fn g() { return a; }")
+            if I:
+                lines += ["                var a = %s;" % use, "                print(a);"]
+            else:
+                lines.append("                print(%s);" % use)
+            lines.append("            }")
+            if L:
+                lines.append('            var a = "L";')
+            lines += ["        }", "    }", "}", "f();", 'print("done");']
+            bound = "B" if B else "F" if F else "G" if G else None
+            if I and uk != "fn":
+                exp = ("compile", "Cannot read local variable in its own initialiser.")
+            elif bound is None:
+                exp = ("name-error",)
+            else:
+                exp = ("ok", [bound, "done"])
+            out.append(("resolve:%d%d%d%d%d%d/%s" % (G, F, B, S, I, L, uk), "\n".join(lines) + "\n", exp))
+    return out
+
+
 def local_closure_body(rng):
     return BODIES[rng.below(len(BODIES))]
 
@@ -149,8 +193,23 @@ def correspondence(ctx, model_ok=True):
                     failures.append({"what": "closure/scoping scenario prints the wrong values when placed in a %s" % k,
                                      "program": variants[k], "expected": expected, "printed": list(o[2]) if len(o) > 2 else o, "status": o[0],
                                      "signature": "scenario %d in %s" % (i % len(BODIES), k), "failing_input": True})
+    # (d) which declaration a use refers to: expectation constructed from the rule
+    grid = resolution_grid()
+    gres, _ = progs.run_programs(ctx.runner, [(n, src, {}) for n, src, _ in grid], {"gc": "default"}, tag="r")
+    for (name, src, exp), r in zip(grid, gres):
+        o = progs.canon_step(r)
+        if exp[0] == "ok":
+            good = o[0] == "ok" and list(o[2]) == exp[1]
+        elif exp[0] == "compile":
+            good = o[0] == "err" and o[1] == "CompileError" and len(o[3]) == 1 and exp[1] in o[3][0] and not o[2]
+        else:
+            good = o[0] == "err" and o[1] == "NameError" and not o[2]
+        if not good:
+            failures.append({"what": "a use of a name does not refer to the innermost enclosing declaration that precedes it (%s): expected %s, observed %s"
+                                     % (name, exp, str(o)[:200]), "program": src, "expected_resolution": list(exp), "signature": "resolution " + name.split("/")[1],
+                             "failing_input": True})
     # (b) reference interpreter
-    sd = specdiff.diff(ctx, [(n, s, m) for n, s, m, _ in gen] + corpus, "C06", broken) if model_ok else {"failures": [], "compared": 0}
+    sd = specdiff.diff(ctx, [(n, s, m) for n, s, m, _ in gen] + corpus + [(n, src, {}) for n, src, _ in grid], "C06", broken) if model_ok else {"failures": [], "compared": 0}
     failures += sd["failures"]
     tags = {}
     for _, _, _, tg in gen:
@@ -164,7 +223,7 @@ def correspondence(ctx, model_ok=True):
         "samples": [gen[0][1][:500], mlines[:8]],
         "capture_events": n_cap, "captures_reusing_a_cell": n_reuse, "close_groups_closing_cells": n_close,
         "traces_validated_against_impl": len(spans),
-        "wrapper_groups": n_meta,
+        "wrapper_groups": n_meta, "resolution_grid_programs": len(grid),
         "programs_compared_with_reference_interpreter": sd["compared"],
         "generator_distribution": dict(sorted(tags.items(), key=lambda kv: -kv[1])[:30]),
         "programs": len(allp),
@@ -173,6 +232,17 @@ def correspondence(ctx, model_ok=True):
 
 
 def replay(ctx, payload):
+    if "expected_resolution" in payload:
+        a, _ = progs.run_programs(ctx.runner, [("a", payload["program"], {})], {"gc": "default"})
+        o = progs.canon_step(a[0])
+        exp = payload["expected_resolution"]
+        if exp[0] == "ok":
+            good = o[0] == "ok" and list(o[2]) == exp[1]
+        elif exp[0] == "compile":
+            good = o[0] == "err" and o[1] == "CompileError" and len(o[3]) == 1 and exp[1] in o[3][0]
+        else:
+            good = o[0] == "err" and o[1] == "NameError"
+        return good, "observed %s expected %s" % (str(o)[:300], exp)
     if "expected" in payload:
         a, _ = progs.run_programs(ctx.runner, [("a", payload["program"], {})], {"gc": "default"})
         o = progs.canon_step(a[0])
